@@ -13,6 +13,7 @@ import (
 	"verif/a"
 	"verif/gqlref"
 
+	"github.com/buildbuildio/pebbles/planner"
 	"github.com/buildbuildio/pebbles/vrt"
 	"github.com/gobwas/ws"
 	"github.com/gobwas/ws/wsutil"
@@ -41,8 +42,37 @@ func (h *hijackWriter) Hijack() (net.Conn, *bufio.ReadWriter, error) {
 	return h.conn, bufio.NewReadWriter(bufio.NewReader(h.conn), bufio.NewWriter(h.conn)), nil
 }
 
-func upgradeRequest() *http.Request {
+// connGuard models the life time of client connections for queryers made on their behalf:
+// every handler invocation gets a connection token (header X-Conn); once the connection is
+// over, a downstream call through a queryer that was created for it fails the way a call
+// with a cancelled request context does.
+type connGuard struct {
+	n      int
+	closed map[string]bool
+}
+
+func newConnGuard(f *a.Fed) *connGuard {
+	g := &connGuard{closed: map[string]bool{}}
+	f.Guard = func(pc *planner.PlanningContext, url string) error {
+		if pc == nil || pc.Request == nil || pc.Request.Original == nil {
+			return nil
+		}
+		if id := pc.Request.Original.Header.Get("X-Conn"); id != "" && g.closed[id] {
+			return fmt.Errorf("context canceled: the client connection %s this queryer was created for is gone", id)
+		}
+		return nil
+	}
+	return g
+}
+
+func (g *connGuard) open() string    { g.n++; return fmt.Sprintf("conn%d", g.n) }
+func (g *connGuard) close(id string) { g.closed[id] = true }
+
+func upgradeRequest(connID ...string) *http.Request {
 	r, _ := http.NewRequest("GET", "http://gateway/", nil)
+	if len(connID) > 0 {
+		r.Header.Set("X-Conn", connID[0])
+	}
 	r.Header.Set("Upgrade", "websocket")
 	r.Header.Set("Connection", "Upgrade")
 	r.Header.Set("Sec-WebSocket-Version", "13")
